@@ -456,6 +456,17 @@ def run(case, ctx):
             ok, res = call(parser(entry), _copy.deepcopy(arg) if entry != "yaml" else arg)
     ctx.count("injected:" + inj)
     ctx.count("entry:" + entry)
+    if not ok and entry not in ("yaml",) and case.get("definite"):
+        # the very same structure handed to the parser a second time (a refused spec stays refused)
+        with warnings.catch_warnings():
+            warnings.simplefilter("ignore")
+            ok2, res2 = call(parser(entry), arg)
+            ok3, res3 = call(parser(entry), arg)
+        ctx.count("definite-error-parsed-again")
+        if (ok2 or ok3) and inj not in DEFINITE_MAY_ACCEPT:
+            ctx.violate(f"C19/accepted-second-time/{inj}/{entry}", f"refused at first ({res!r}), accepted when the same structure was parsed again: {spec!r}")
+        elif not ok3 and not ok_error(res3, entry):
+            ctx.violate(f"C19/raise:{res3.type}@{res3.where}/{inj.split(':')[0]}/{entry}", f"(third parse of the same structure) {spec!r}\n raised {res3!r}")
     if ok:
         ctx.count("outcome:accepted")
         if case.get("definite") and inj not in DEFINITE_MAY_ACCEPT:
